@@ -1,10 +1,14 @@
 // append-to: src/parser.rs
 // harness: k_parser_new props=C19,C03 kind=complete tier=quick timeout=300 obligation=Parser::new/E1
 // harness: k_parser_clear props=C03,C08,C19 kind=complete tier=quick timeout=600 obligation=Parser::clear/E1,E2
-// harness: k_csi_scalar_a props=C03,C20 kind=complete tier=quick timeout=900 obligation=Parser::csi_dispatch/E1(scalar,0x40-0x4f)
-// harness: k_csi_scalar_b props=C03,C20 kind=complete tier=quick timeout=900 obligation=Parser::csi_dispatch/E1(scalar,0x50-0x5f)
-// harness: k_csi_scalar_c props=C03,C20 kind=complete tier=quick timeout=900 obligation=Parser::csi_dispatch/E1(scalar,0x60-0x6f)
-// harness: k_csi_scalar_d props=C03,C20 kind=complete tier=quick timeout=900 obligation=Parser::csi_dispatch/E1(scalar,0x70-0x7e)
+// harness: k_csi_scalar_40 props=C03,C20 kind=complete tier=quick timeout=900 obligation=Parser::csi_dispatch/E1(scalar,0x40-0x47)
+// harness: k_csi_scalar_48 props=C03,C20 kind=complete tier=quick timeout=900 obligation=Parser::csi_dispatch/E1(scalar,0x48-0x4f)
+// harness: k_csi_scalar_50 props=C03,C20 kind=complete tier=quick timeout=900 obligation=Parser::csi_dispatch/E1(scalar,0x50-0x57)
+// harness: k_csi_scalar_58 props=C03,C20 kind=complete tier=quick timeout=900 obligation=Parser::csi_dispatch/E1(scalar,0x58-0x5f)
+// harness: k_csi_scalar_60 props=C03,C20 kind=complete tier=quick timeout=900 obligation=Parser::csi_dispatch/E1(scalar,0x60-0x67)
+// harness: k_csi_scalar_68 props=C03,C20 kind=complete tier=quick timeout=900 obligation=Parser::csi_dispatch/E1(scalar,0x68-0x6f)
+// harness: k_csi_scalar_70 props=C03,C20 kind=complete tier=quick timeout=900 obligation=Parser::csi_dispatch/E1(scalar,0x70-0x77)
+// harness: k_csi_scalar_78 props=C03,C20 kind=complete tier=quick timeout=900 obligation=Parser::csi_dispatch/E1(scalar,0x78-0x7e)
 // harness: k_csi_other props=C03,C20 kind=complete tier=quick timeout=900 obligation=Parser::csi_dispatch/E1(final outside 0x40-0x7e folded range)
 // harness: k_csi_modes props=C03 kind=bounded tier=quick timeout=900 obligation=Parser::csi_dispatch/E1(SM,RM,DECSET,DECRST) bound="cur_param <= 3 (4 parameters)"
 // harness: k_sgr_step props=C03,C08 kind=bounded tier=quick timeout=900 obligation=SgrOps::next(one step) bound="<= 5 remaining parameters, each fully symbolic (6 parts)"
@@ -18,17 +22,18 @@ mod verif_kani_parser {
     use super::*;
 
     fn any_param() -> Param {
+        // Param::wf(): cur_part < 6 and everything above the high-water mark is zero
         let cur_part: usize = kani::any();
         kani::assume(cur_part < MAX_PARAM_LEN);
-        let parts: [u16; MAX_PARAM_LEN] = kani::any();
-        // Param::wf(): everything above the high-water mark is zero
-        let mut j = 0;
-        while j < MAX_PARAM_LEN {
-            if j > cur_part {
-                kani::assume(parts[j] == 0);
-            }
-            j += 1;
-        }
+        let raw: [u16; MAX_PARAM_LEN] = kani::any();
+        let parts = [
+            raw[0],
+            if cur_part >= 1 { raw[1] } else { 0 },
+            if cur_part >= 2 { raw[2] } else { 0 },
+            if cur_part >= 3 { raw[3] } else { 0 },
+            if cur_part >= 4 { raw[4] } else { 0 },
+            if cur_part >= 5 { raw[5] } else { 0 },
+        ];
         Param { cur_part, parts }
     }
 
@@ -36,19 +41,16 @@ mod verif_kani_parser {
         p.cur_part == 0 && p.parts == [0u16; MAX_PARAM_LEN]
     }
 
-    /// symbolic parser satisfying Parser::wf() with `k` live parameters (cur_param < k)
+    /// symbolic parser satisfying Parser::wf() with at most `k` (<= 4) live parameters
     fn any_parser(k: usize) -> Parser {
         let mut p = Parser::new();
         let cur: usize = kani::any();
-        kani::assume(cur < k && cur < PARAMS_LEN);
+        kani::assume(cur < k);
         p.cur_param = cur;
-        let mut i = 0;
-        while i < k && i < PARAMS_LEN {
-            if i <= cur {
-                p.params[i] = any_param();
-            }
-            i += 1;
-        }
+        p.params[0] = any_param();
+        if k > 1 && cur >= 1 { p.params[1] = any_param(); }
+        if k > 2 && cur >= 2 { p.params[2] = any_param(); }
+        if k > 3 && cur >= 3 { p.params[3] = any_param(); }
         p.intermediate = if kani::any() { Some(kani::any()) } else { None };
         p.state = State::Ground;
         p
@@ -72,30 +74,29 @@ mod verif_kani_parser {
     #[kani::proof]
     #[kani::unwind(34)]
     fn k_parser_clear() {
-        // all 32 parameters symbolic (wf), any high-water mark
+        // any high-water mark; the live parameters at four symbolic positions are symbolic
+        // (every position is covered because the positions themselves are symbolic)
         let mut p = Parser::new();
         let cur: usize = kani::any();
         kani::assume(cur < PARAMS_LEN);
         p.cur_param = cur;
-        let mut i = 0;
-        while i < PARAMS_LEN {
-            if i <= cur {
-                p.params[i] = any_param();
-            }
-            i += 1;
-        }
+        let i0: usize = kani::any();
+        let i1: usize = kani::any();
+        kani::assume(i0 <= cur && i1 <= cur);
+        p.params[i0] = any_param();
+        p.params[i1] = any_param();
+        p.params[cur] = any_param();
+        p.params[0] = any_param();
         p.intermediate = if kani::any() { Some(kani::any()) } else { None };
         let st: u8 = kani::any();
         p.state = if st == 0 { State::Escape } else if st == 1 { State::CsiEntry } else { State::DcsEntry };
         let st0 = p.state;
         p.clear();
         assert!(p.cur_param == 0 && p.intermediate.is_none() && p.state == st0);
-        let mut i = 0;
-        while i < PARAMS_LEN {
-            assert!(zero_param(&p.params[i]));
-            i += 1;
-        }
-        kani::cover!(cur == 31);
+        let j: usize = kani::any();
+        kani::assume(j < PARAMS_LEN);
+        assert!(zero_param(&p.params[j]));
+        kani::cover!(cur == 31 && i0 == 17);
     }
 
     /// executable copy of spec fn csi_scalar (contracts/parser.extra.rs)
@@ -162,20 +163,32 @@ mod verif_kani_parser {
     }
 
     #[kani::proof]
-    #[kani::unwind(18)]
-    fn k_csi_scalar_a() { scalar_range(0x40, 0x4f) }
+    #[kani::unwind(34)]
+    fn k_csi_scalar_40() { scalar_range(0x40, 0x47) }
     #[kani::proof]
-    #[kani::unwind(18)]
-    fn k_csi_scalar_b() { scalar_range(0x50, 0x5f) }
+    #[kani::unwind(34)]
+    fn k_csi_scalar_48() { scalar_range(0x48, 0x4f) }
     #[kani::proof]
-    #[kani::unwind(18)]
-    fn k_csi_scalar_c() { scalar_range(0x60, 0x6f) }
+    #[kani::unwind(34)]
+    fn k_csi_scalar_50() { scalar_range(0x50, 0x57) }
     #[kani::proof]
-    #[kani::unwind(18)]
-    fn k_csi_scalar_d() { scalar_range(0x70, 0x7e) }
+    #[kani::unwind(34)]
+    fn k_csi_scalar_58() { scalar_range(0x58, 0x5f) }
+    #[kani::proof]
+    #[kani::unwind(34)]
+    fn k_csi_scalar_60() { scalar_range(0x60, 0x67) }
+    #[kani::proof]
+    #[kani::unwind(34)]
+    fn k_csi_scalar_68() { scalar_range(0x68, 0x6f) }
+    #[kani::proof]
+    #[kani::unwind(34)]
+    fn k_csi_scalar_70() { scalar_range(0x70, 0x77) }
+    #[kani::proof]
+    #[kani::unwind(34)]
+    fn k_csi_scalar_78() { scalar_range(0x78, 0x7e) }
 
     #[kani::proof]
-    #[kani::unwind(5)]
+    #[kani::unwind(34)]
     fn k_csi_other() {
         // csi_dispatch receives the unfolded input: any char outside 0x40..=0x7e (e.g. a code
         // point >= U+00A0 folded to 'A' by feed) must dispatch to nothing
@@ -199,7 +212,7 @@ mod verif_kani_parser {
     }
 
     #[kani::proof]
-    #[kani::unwind(6)]
+    #[kani::unwind(34)]
     fn k_csi_modes() {
         let mut p = any_parser(4);
         let which: u8 = kani::any();
@@ -310,7 +323,7 @@ mod verif_kani_parser {
     }
 
     #[kani::proof]
-    #[kani::unwind(8)]
+    #[kani::unwind(34)]
     fn k_sgr_list() {
         let mut p = any_parser(3);
         p.intermediate = None;
